@@ -1303,3 +1303,29 @@ MA('C05', 'Divergence adjoint keeps the difference method', DIFF,
    'return -Gradient(self.range, self.domain, method=_ADJ_METHOD[self.method], pad_mode=_ADJ_PADDING[self.pad_mode])',
    'return -Gradient(self.range, self.domain, method=self.method, pad_mode=_ADJ_PADDING[self.pad_mode])',
    'Divergence[forward')
+DFUN = 'odl/solvers/functional/default_functionals.py'
+MA('C09', 'KL gradient without prior drops the constant one', DFUN,
+   'KullbackLeibler.gradient.KLGradient._call', 'return -1.0 / x + 1',
+   'return -1.0 / x', 'KullbackLeibler[')
+MA('C09', 'KL convex conjugate gradient sign of x', DFUN,
+   'KullbackLeiblerConvexConj.gradient.KLCCGradient._call',
+   'return 1.0 / (1 - x)', 'return 1.0 / (1 + x)',
+   'KullbackLeiblerConvexConj[')
+MA('C09', 'KL cross entropy gradient ignores the prior', DFUN,
+   'KullbackLeiblerCrossEntropy.gradient.KLCrossEntropyGradient._call',
+   'tmp = np.log(x / functional.prior)', 'tmp = np.log(x)',
+   'KullbackLeiblerCrossEntropy[prior')
+MA('C09', 'L2 gradient divides by the squared norm', DFUN,
+   'LpNorm.gradient.L2Gradient._call', 'norm_of_x = x.norm()',
+   'norm_of_x = x.inner(x)', 'L2Norm[')
+MA('C09', 'QuadraticForm gradient without the linear term', DFUN,
+   'QuadraticForm.gradient', 'return gradient + self.vector',
+   'return gradient', 'QuadraticForm[operator')
+MA('C09', 'SeparableSum gradient reverses the components', DFUN,
+   'SeparableSum.gradient',
+   'gradients = [func.gradient for func in self.functionals]',
+   'gradients = [func.gradient for func in self.functionals[::-1]]',
+   'SeparableSum[L2Norm')
+MA('C09', 'linear functional derivative via gradient.T (regression)',
+   'odl/solvers/functional/functional.py', 'Functional.derivative',
+   'if self.is_linear:...', 'pass', 'field')
